@@ -346,6 +346,7 @@ func c02Child(a *ChildArgs) {
 		c02Nesting(a)
 	case "limits":
 		c02Limits(a)
+		c02Sequences(a)
 	case "tokens":
 		c02TokenDepth(a)
 	}
@@ -409,6 +410,63 @@ func c02Nesting(a *ChildArgs) {
 		c02CheckStack(a, cs.ID, wit)
 		if i%211 == 0 {
 			a.Rec.Sample("nesting", 3, map[string]interface{}{"case": cs.ID, "sql": trunc(sql, 160)})
+		}
+	}
+}
+
+// c02Sequences: the nesting limit holds for every statement, not only the first one a parser sees: after a statement
+// that was refused for its depth (by any of the guards), the next statement on the same parser, and the next
+// statement of the same recovery script, is held to the same limit.
+func c02Sequences(a *ChildArgs) {
+	over := map[string]string{
+		"derived-tables":    strings.Repeat("SELECT * FROM (", 130) + "SELECT 1" + strings.Repeat(") x", 130),
+		"scalar-subqueries": "SELECT " + strings.Repeat("(SELECT ", 70) + "1" + strings.Repeat(")", 70),
+		"cte-bodies":        strings.Repeat("WITH c AS (", 120) + "SELECT 1" + strings.Repeat(") SELECT * FROM c", 120),
+		"parentheses":       "SELECT " + strings.Repeat("(", 150) + "1" + strings.Repeat(")", 150),
+		"function-calls":    "SELECT " + strings.Repeat("f(", 150) + "1" + strings.Repeat(")", 150),
+		"signs":             "SELECT " + strings.Repeat("- ", 150) + "1",
+		"not-chain":         "SELECT " + strings.Repeat("NOT ", 150) + "a",
+		"case-when":         "SELECT " + strings.Repeat("CASE WHEN a THEN ", 120) + "1" + strings.Repeat(" END", 120),
+		"match-against":     "SELECT " + strings.Repeat("MATCH(a) AGAINST (", 120) + "'x'" + strings.Repeat(")", 120) + " FROM t",
+	}
+	second := map[string]string{
+		"parentheses-150": "SELECT " + strings.Repeat("(", 150) + "1" + strings.Repeat(")", 150),
+		"calls-190":       "SELECT " + strings.Repeat("f(", 190) + "1" + strings.Repeat(")", 190),
+		"subqueries-60":   "SELECT " + strings.Repeat("(SELECT ", 60) + "1" + strings.Repeat(")", 60),
+	}
+	tokens := func(sql string) []models.TokenWithSpan {
+		t, err := mustTokenizer().Tokenize([]byte(sql))
+		if err != nil {
+			return nil
+		}
+		return t
+	}
+	for on, o := range over {
+		for sn, sc := range second {
+			for _, rounds := range []int{1, 3} {
+				a.Rec.Count("evaluations", 1)
+				a.Rec.Distinct("cases", fmt.Sprintf("sequence/%s/%s/%d", on, sn, rounds))
+				wit := map[string]interface{}{"first": trunc(o, 120), "then": trunc(sc, 120), "rounds_of_first": rounds}
+				p := parser.NewParser()
+				for k := 0; k < rounds; k++ {
+					if _, err := p.ParseFromModelTokens(tokens(o)); err == nil {
+						a.Rec.Viol("C02/sequence/"+on+"/first-accepted", "nesting beyond the limit is rejected", "over-deep statement accepted", wit)
+					}
+				}
+				if _, err := p.ParseFromModelTokens(tokens(sc)); err == nil {
+					a.Rec.Viol("C02/sequence/"+on+"/then-"+sn+"/accepted-on-same-parser", "nesting beyond the limit is rejected by every statement a parser sees",
+						fmt.Sprintf("after %d over-deep %s statement(s) the same parser accepts %s", rounds, on, sn), wit)
+				}
+				p.Release()
+				// the same pair as one recovery script (one parser serves the whole script). What recovery makes of the
+				// tail of a refused statement is C12's business; here a script of two over-deep statements must at
+				// least be reported as faulty twice.
+				_, errs := gosqlx.ParseWithRecovery(strings.Repeat(o+" ; ", rounds) + sc)
+				if len(errs) < 2 {
+					a.Rec.Viol("C02/sequence/"+on+"/then-"+sn+"/accepted-in-recovery-script", "nesting beyond the limit is rejected by every statement of a script",
+						fmt.Sprintf("recovery parsing of [%d x over-deep %s ; %s] reports %d errors", rounds, on, sn, len(errs)), wit)
+				}
+			}
 		}
 	}
 }
